@@ -1149,9 +1149,11 @@ def run_robust_base(idx, base, wd, profile):
     # flight is identified (re-run with per-execution echo), recorded as a crash / hang event, and
     # the base is run again without it -- up to 6 times -- so that the other executions are still made.
     crash_events, skip, crash_input, crashed = [], [], None, False
+    hangs = 0
     for attempt in range(6):
-        if rc == 0:
+        if rc == 0 or hangs >= 2:
             break
+        hangs += rc == 97
         crashed = True
         if rc == 97:
             try:
